@@ -98,7 +98,9 @@ def ref_trusted(host, trusted):
 
 LABELS = ["localhost", "a", "evil", "com", "evillocalhost", "localhostevil", "xn--nxasmq6b", "ü", "LOCALHOST", "A" * 64, "", "127", "0", "1", "b-c", "a。b"]
 ENTRIES = ["[::1]", "[::1]:8080", "localhost", ".localhost", "127.0.0.1", "a.com", ".a.com", "ü.com", ".xn--nxasmq6b", "LOCALHOST", "." + "A" * 64 + ".com", "evil.com:8080", ".com"]
-PORTS = ["", ":80", ":abc", ":", ":99999", ":@evil.com", ":80@evil.com/x", ":8\u0660"]
+PORTS = ["", ":80", ":abc", ":", ":99999", ":@evil.com", ":80@evil.com/x", ":8\u0660",
+         # digits that are not introduced by a colon are not a port (behind a bracketed literal they are garbage)
+         "5000", "x80", "@80", "]443"]
 
 
 def host_pairs(rng, idx, of):
